@@ -43,6 +43,25 @@ CHECKS.update({
          "Generated-input exploration of the id grammar (valid / version-less / malformed in comparable shares, Unicode word characters and digits, leading zeros, huge versions) and of register/make histories with a recording dummy entry point; the 25 shipped ids are enumerated completely.",
          "Ids with more than 4300 version digits (CPython int conversion limit) are out of domain; Sokoban-v0 is instantiated with a ToyGenerator override because its dataset is not available offline.", "3/C18"),
 })
+_MODEL_NOTE = "Rule models are independent NumPy code in vf/models/<env>.py written from docs/environments/*.md and class docstrings; finite constructor menus (vf/envs.py); entries the docs leave undefined are guarded per model."
+CHECKS.update({
+ "C04": ("per reached state the whole action space is enumerated through one vmapped step; two oracles: independent NumPy statement of the rules, and the env's own reaction to every action; states from Hypothesis-generated legal/raw/solve/crowd plans",
+         "Generated-history exploration of all 21 masked environments (non-square grids, several agents): at every non-terminal state the mask is compared entry by entry with an independent rule model, and every action (all of them up to 1024, stratified sample beyond; per agent/machine for joint spaces) is stepped to compare the environment's reaction with the mask.", _MODEL_NOTE, "3/C04"),
+ "C05": ("every rule-illegal action of each reached state is enumerated and stepped (vmapped); oracle = documented invalid-move effect per environment (LAST + documented reward + untouched state, or ignored move)",
+         "Generated-history exploration: states along legal/solve plans x all illegal actions (by the independent rule model, not the env mask); terminate-on-invalid and ignore-invalid environments are checked against their documented effect.", _MODEL_NOTE, "3/C05"),
+ "C06": ("mask-following fill orders (first, last, random, solver, conflict-biased) generated by Hypothesis; hard constraints and completeness recomputed from raw state arrays in float64/int64 NumPy after every step",
+         "Generated-history exploration of the 11 combinatorial-optimisation environments under play that follows the environment's own mask; feasibility of the partial solution after every step and completeness at legally reached ends.", _MODEL_NOTE + " One recorded known finding (MMST horizon) in known_findings.json.", "3/C06"),
+ "C07": ("Hypothesis-generated plans mixing legal, illegal, raw, solver and conflict-biased actions; physical-consistency invariants and conservation laws recomputed in NumPy on every non-terminal state",
+         "Generated-history exploration of the 11 grid/game environments (square, non-square, tiny grids; 1-4 agents): positions, uniqueness, table/grid agreement and conserved quantities are checked on every state from which the episode continues.", _MODEL_NOTE, "3/C07"),
+ "C08": ("legal plans played to termination; return vs objective recomputed in float64 from raw arrays; metamorphic dense-vs-sparse twin on the identical trajectory",
+         "Generated-history exploration: finished all-legal episodes (random legal, look-ahead survive, model solvers incl. late-finishing variants) are scored against the documented objective, and replayed in the twin configuration with the other reward function where both are documented as the same objective.", _MODEL_NOTE + " Tolerance rtol 1e-4.", "3/C08"),
+ "C09": ("differential testing of every transition against independent NumPy rule models on generated histories; exhaustive synthetic tables (all 19 600 2048 rows of length 2-5 over exponents 0-6, all 2x2 boards) and generated synthetic states for utility functions",
+         "Generated-history exploration with reference models for 18 environments (state fields, reward, termination; stochastic parts by membership) plus complete enumeration of small synthetic domains (marked exhaustive per sub-check) and scripted solver episodes that reach rare rule branches (line clears, pushes, deliveries, collisions).", _MODEL_NOTE, "3/C09"),
+ "C10": ("batches of PRNG keys through every shipped generator configuration (incl. dense corners) via vmap(reset); per-instance NumPy validators: BFS connectivity, parity, exact-cover / tiling search, solution replay in the env, counts and ranges; complete scan of the shipped Sudoku databases",
+         "Generated-input exploration of instance generators: 100+ generator configurations x batches of keys; solvability is established constructively (solver or replay of the generator's own solution), searches that exhaust their budget count as inconclusive; both Sudoku databases are enumerated completely.", _MODEL_NOTE, "3/C10"),
+ "C12": ("each (state, observation) pair returned together on generated histories is compared with an independent NumPy observer (top-k EMS, feature planes, fov windows, sensor vectors, relabelling, copied fields)",
+         "Generated-history exploration over configurations covering fov/sensor ranges, obs_num_ems < and = max, normalisation on/off and both LBF observers; solver plans reach deliveries, eaten food and line clears where observations change most.", _MODEL_NOTE, "3/C12"),
+})
 NOT_APPLICABLE = {}
 PENDING_REASON = "check not built yet in this revision of /verif (work in progress); the technique applies and the design is in DESIGN.md section 3"
 
